@@ -428,7 +428,7 @@ func (r *engRun) build(label int, mode string, fail []int, crash string, note st
 	if hung {
 		r.oracle("C05 build of %s hung (mode %s)", lbl, mode)
 	}
-	if crash != "" && code == 137 {
+	if crash != "" && (code == 137 || (strings.HasPrefix(crash, "partial|") && rep == nil)) {
 		obs.Kind = "crash"
 		hooks, _ := readLines(filepath.Join(r.root, ".hooks.log"), r.hookPos)
 		phase := ""
@@ -440,6 +440,17 @@ func (r *engRun) build(label int, mode string, fail []int, crash string, note st
 			case f[0] == "eval.before_body" && phase == "run":
 				obs.Started = append(obs.Started, r.labelIDAny(f[1]))
 			case f[0] == "save.renamed" && phase == "run":
+				// the first rename of a function target's record in the run phase is its re-run mark
+				if id := r.labelIDAny(f[1]); id < 1000 {
+					seen := false
+					for _, x := range obs.Premarked {
+						seen = seen || x == id
+					}
+					if !seen {
+						obs.Premarked = append(obs.Premarked, id)
+					}
+				}
+			case f[0] == "eval.recorded" && phase == "run":
 				obs.Recorded = append(obs.Recorded, r.labelIDAny(f[1]))
 			}
 		}
@@ -448,6 +459,7 @@ func (r *engRun) build(label int, mode string, fail []int, crash string, note st
 		}
 		sort.Ints(obs.Started)
 		sort.Ints(obs.Recorded)
+		sort.Ints(obs.Premarked)
 	} else if rep == nil {
 		obs.Kind = "died"
 	} else {
